@@ -6,7 +6,7 @@ import vf, e1
 def main(tier, only=None):
     chk = vf.Check("C18", tier)
     nbuf = 6 if tier == "quick" else 8
-    fams = only or ["splice", "line"]
+    fams = only or ["splice", "readfile", "line"]
     if "splice" in fams:
         chk.bounds += ["splice: every NUL-terminated buffer of <= %d bytes over {backslash, LF, CR, 'a', space} "
                        "(all 5^k contents for every k, symbolic)" % nbuf]
@@ -18,6 +18,13 @@ def main(tier, only=None):
               e1.H("h_splice_lag", "splice/line/lags-by-splices", unwind=U, defines=d, timeout=to),
               e1.H("h_splice_c11", "splice/line/after-splice-c11", unwind=U, defines=d, timeout=to)]
         e1.run_set(chk, "c18/splice.c", hs, workers=int(os.environ.get("VERIF_WORKERS", "8")))
+    if "readfile" in fams:
+        n = 5 if tier == "quick" else 6
+        chk.bounds += ["readfile: the real tokenize_file()/read_file() on every file of <= %d bytes over {CR, LF, a, backslash} delivered by fread() in chunks of arbitrary (symbolic) "
+                       "lengths: the text handed to the tokenizer equals the phase 1-2 reference (CR LF, final newline, splices)" % n]
+        chk.assumptions += ["readfile: memory-backed stdio model (fopen/fread/open_memstream/fwrite/fputc/fflush/fclose); fread returns any positive count <= min(remaining, requested)"]
+        e1.run_set(chk, "c18/readfile.c", [e1.H("h_readfile_newlines", "readfile/newlines-independent-of-chunking", unwind=n + 5, defines=("__NO_CTYPE", "RF_N=%d" % n),
+                                                 replace_calls=("tokenize:stub_tokenize",), timeout=1200, native=False)])
     if "line" in fams:
         chk.bounds += ["#line: one `#line n` / `# n` directive on physical line p, __LINE__ probed on lines "
                        "q0 < p < q1 < q2 <= 2^20, 0 <= n <= 2^30, all symbolic"]
